@@ -1,0 +1,47 @@
+//go:build verif
+
+package resolvergen
+
+// Machine-checked contracts for the gocv verifier (/verif/DESIGN.md). Comments only.
+// C19: the previous implementation of a resolver is looked up under exactly the struct name the template emits for
+// it - `{{lcFirst $object.Name}}{{ucFirst $.ResolverType}}` in resolver.gotpl - so a body that exists is found and
+// carried over (lcFirstOf/ucFirstOf stand for templates.LcFirst/UcFirst, the functions the template applies).
+
+//@ spec lcFirstOf(string) string
+//@ spec ucFirstOf(string) string
+//@ trusted github.com/99designs/gqlgen/codegen/templates.LcFirst(s) (r)
+//@   ensures r == lcFirstOf(s)
+//@   nopanic
+//@   pure
+//@ trusted github.com/99designs/gqlgen/codegen/templates.UcFirst(s) (r)
+//@   ensures r == ucFirstOf(s)
+//@   nopanic
+//@   pure
+//@ trusted strings.TrimSpace(s) (t)
+//@   pure
+//@ trusted strings.TrimLeft(s, cutset) (t)
+//@   pure
+//@ trusted (golang.org/x/text/cases.Caser).String(s) (r)
+//@   pure
+//@ trusted golang.org/x/text/cases.Title(t, opts) (c)
+//@   pure
+//@ trusted (*github.com/99designs/gqlgen/codegen.Object).HasResolvers() (b)
+//@   pure
+
+// (golang.org/x/tools/go/packages.Load returns non-nil packages: trusted)
+//@ trusted github.com/99designs/gqlgen/internal/rewrite.New(dir) (r, err)
+//@   ensures err == nil ==> r != nil && r.pkg != nil
+//@ func (*Plugin).generateSingleFile [C19]
+//@   stable Rewriter.pkg
+//@   at! `assign structName` requires rhs0 == lcFirstOf(o.Name) + ucFirstOf(data.Config.Resolver.Type)
+//@   at! `rewriter.MarkStructCopied(templates.LcFirst(o.Name) + templates.UcFirst(data.Config.Resolver.Type))` requires arg0 == lcFirstOf(o.Name) + ucFirstOf(data.Config.Resolver.Type)
+//@   at! `rewriter.GetMethodBody(structName, f.GoFieldName)` requires arg0 == structName && arg1 == f.GoFieldName
+//@   at! `rewriter.GetMethodComment(structName, f.GoFieldName)` requires arg0 == structName && arg1 == f.GoFieldName
+//@   at! `rewriter.GetPrevDecl(structName, f.GoFieldName)` requires arg0 == structName && arg1 == f.GoFieldName
+//@ func (*Plugin).generatePerSchema [C19]
+//@   stable Rewriter.pkg
+//@   at! `assign structName` requires rhs0 == lcFirstOf(o.Name) + ucFirstOf(data.Config.Resolver.Type)
+//@   at! `rewriter.MarkStructCopied(templates.LcFirst(o.Name) + templates.UcFirst(data.Config.Resolver.Type))` requires arg0 == lcFirstOf(o.Name) + ucFirstOf(data.Config.Resolver.Type)
+//@   at! `rewriter.GetMethodBody(structName, f.GoFieldName)` requires arg0 == structName && arg1 == f.GoFieldName
+//@   at! `rewriter.GetMethodComment(structName, f.GoFieldName)` requires arg0 == structName && arg1 == f.GoFieldName
+//@   at! `rewriter.GetPrevDecl(structName, f.GoFieldName)` requires arg0 == structName && arg1 == f.GoFieldName
